@@ -257,6 +257,35 @@ static void propagateAndRun(Builder<G>& b, dispenso::ThreadPool& pool, const std
   checkAfter(b, expect);
 }
 
+// partial rounds judged against the library's own completion state (no closure model: which nodes
+// *should* be incomplete is C31's business): whatever is incomplete when the executor starts runs
+// exactly once after its incomplete predecessors, whatever is complete is left alone and stays
+// complete, and everything is complete afterwards
+template <class G>
+static void partialRoundsByLibraryState(Builder<G>& b, dispenso::ThreadPool& pool) {
+  GRun& g = *gg;
+  int rounds = range(1, 3);
+  for (int r = 0; r < rounds; ++r) {
+    size_t N = g.nodes.size();
+    int nMark = range(1, 3);
+    for (int k = 0; k < nMark; ++k) {
+      size_t i = (size_t)pick((uint32_t)N);
+      if (g.nodes[i].alive)
+        b.node((int)i).setIncomplete();
+    }
+    dispenso::ForwardPropagator fp;
+    fp(b.graph);
+    std::vector<bool> expect(N, false);
+    for (size_t i = 0; i < N; ++i)
+      if (g.nodes[i].alive) {
+        expect[i] = !b.node((int)i).isCompleted();
+        g.nodes[i].modelComplete = !expect[i];
+      }
+    execute(b, pool, (int)pick(4), b.biprop ? "partial-by-library-state-biprop" : "partial-by-library-state");
+    checkAfter(b, expect);
+  }
+}
+
 template <class G>
 static void graphProgram(int focus) {
   GRun g;
@@ -361,6 +390,8 @@ static void graphProgram(int focus) {
         checkAfter(b, allAlive);
       }
     }
+    if (chance(2, 3))
+      partialRoundsByLibraryState(b, pool);
   } else {
     int rounds = range(1, 3);
     for (int r = 0; r < rounds; ++r) {
